@@ -228,7 +228,13 @@ class Gen:
                                         # not a link the client sets later, so `make_id_expr_d` stays a plain Expr
         if name in ('make_union', 'make_namespace'):
             sort = 'Udt'
-        return self.emit(('mk %s %s' % (name, ' '.join(args))).strip(), sort)
+        line = ('mk %s %s' % (name, ' '.join(args))).strip()
+        r = self.emit(line, sort)
+        # the very same call again, at once: a unified factory answers the same node, a generative one a node never returned before
+        # (nothing may be remembered from the previous call)
+        if r is not None and rng.random() < 0.2 and name not in ('make_union', 'make_namespace', 'make_class', 'make_enum', 'make_closure'):
+            self.emit(line, sort)
+        return r
 
     def decl_scope(self, i):
         """Canonical identity of the scope that declarations through handle i go to (None: not a declaration container)."""
